@@ -570,9 +570,12 @@ def pair_cases(draw):
 @st.composite
 def grid2d(draw):
     nx, ny = draw(st.integers(1, 3)), draw(st.integers(1, 3))
+    ring = draw(st.integers(0, 3)) == 0
+    if ring:
+        nx = ny = 3
     bits = draw(st.lists(st.booleans(), min_size=nx * ny, max_size=nx * ny))
     occ = np.array(bits, bool).reshape((nx, ny, 1))
-    if draw(st.booleans()) and nx == 3 and ny == 3:
+    if ring:
         occ[...] = True
         occ[1, 1, 0] = False           # a hole
     if not occ.any():
